@@ -5,7 +5,9 @@ R1 expansion only for lost data (`ProvenanceGraph.build_graph`): the call that e
    recovering-job test came out negative and (b) `token.is_available()` of the *same* token came
    out False (CFG: the node is unreachable from the outcomes that force `is_recovering` / the
    availability to True, and every path from the loop head passes both tests); the recorded
-   `ProvenanceToken.is_available` is the tested value; a token without producers raises.
+   `ProvenanceToken.is_available` is the tested value; a token without producers raises; every loaded
+   producer is linked to the lost token and queued unless visited / queued - in a loop of build_graph itself or of
+   a helper (resolved to one definition) that receives the producers, the token and the frontier as arguments.
    Nec.: expanding an available token re-executes a job whose outputs stayed available.
 R2 availability of file data (`FileToken.is_available` / `_is_path_available`): not recoverable ->
    only `return False`; a path without PRIMARY location -> only `return False`; no location passing
@@ -17,8 +19,9 @@ R2 availability of file data (`FileToken.is_available` / `_is_path_available`): 
 R3 steps selected for re-execution (`GraphMapper.get_step_ids`): ports of the failed step's own
    outputs are excluded (`not in output_port_names`, and the caller passes
    `failed_step.output_ports.values()`); steps having an input port outside the mapped ports are
-   collected under `port name not in self.port_tokens` and removed from the returned set on every
-   path (not only when debugging).
+   collected under `port name not in self.port_tokens` (per port in a loop, or for some port: `any(...)`,
+   `not all(mapped ...)`, a non-empty filtered list; boolean temporaries followed) and removed from the returned
+   set on every path (not only when debugging).
 R4 (added) every coroutine call of these functions is awaited.
 R5 (added) the `restore` overrides select exactly the requested tags.  Every override of `Step.restore` /
    `Combinator.restore` is enumerated through the class table.  (a) In none of them a tag (`<x>.tag`, a
